@@ -371,7 +371,8 @@ def one_case(ctx, ci, forced=None):
     outw = os.path.join(d, "wild.out")
     mapf = os.path.join(d, "ld.map")
     rl = rec.link("ld", args + ["-Wl,-Map=" + mapf], outl)
-    rw = rec.link("wild", args, outw)
+    wargs = [a for a in args if "wrap" not in a] if os.environ.get("VERIF_SELFTEST") == "nowrap" else args
+    rw = rec.link("wild", wargs, outw)
     rec.step("LD_LIBRARY_PATH=. ./ld.out; LD_LIBRARY_PATH=. ./wild.out")
     fp = sha(repr((case["kind"], case["order"], [(u["kind"], u["forced"], sorted(u["defs"]), sorted(u["refs"])) for u in case["units"]])))[:16]
     for u in case["units"]:
